@@ -424,15 +424,23 @@ def own_executors(ctx, rep):
     """executors constructed inside library functions (not by the user through Executors.*)"""
     prog = ctx.prog
     execs = set(c.key for c in ctx.executor_classes())
+    # roots: the public future functions (more_executors.futures.__all__); private helpers are inlined, so the
+    # construction is reported under the public function through which a user reaches it
+    import ast as _ast
+    pub = prog.modules.get("more_executors.futures")
+    rep.require(pub is not None and pub.assigns.get("__all__"), "more_executors.futures.__all__ not found")
+    names = [e.value for e in pub.assigns["__all__"][0].elts if isinstance(e, _ast.Constant)]
     roots = []
-    for mod in prog.modules.values():
-        if ".futures" in mod.name:
-            for fi in mod.functions.values():
-                roots.append(fi)
+    for n in names:
+        r = prog.resolve_symbol("more_executors.futures", n)
+        if r[0] == "func":
+            roots.append(r[1])
+    rep.count("public future functions", len(roots), 14)
+    rootset = set(f.key for f in roots)
     found = 0
     for fi in sorted(roots, key=lambda f: f.key):
         try:
-            ps, it = ctx.paths(fi, None, depth=14, inline=_own_inline(fi))
+            ps, it = ctx.paths(fi, None, depth=14, inline=_own_inline(fi, rootset))
         except AnalysisError:
             raise
         built = {}
@@ -458,10 +466,10 @@ def own_executors(ctx, rep):
     rep.count("library-internal executor construction sites", found, 4)
 
 
-def _own_inline(root):
+def _own_inline(root, rootset):
     def pol(callee, ev, path):
-        # do not descend into other f_* roots: their constructions are reported under their own name
-        if callee.module.name.startswith("more_executors._impl.futures") and callee.parent is None and callee is not root and callee.owner is None:
+        # do not descend into other public roots: their constructions are reported under their own name
+        if callee.key in rootset and callee is not root:
             return False
         if callee.qualname in ("track_future", "record_done"):
             return False
